@@ -233,6 +233,17 @@ func genScript(r *vh.Rng, e, timeout int, class string) ([]Resp, Resp) {
 		}
 		script = append(script, matching(r, e, 1))
 		return script, matching(r, e, 1)
+	case "slowlate":
+		// a few SLOW stale answers, each well inside the per-request deadline, that together take longer than the
+		// wait may take; only then does the expected version appear: the wait must have been given up long before
+		// (a wait bounded by a number of polls instead of by the clock acknowledges it)
+		lat := 80 + r.Intn(40)
+		n := (timeout+140)/lat + 1
+		for i := 0; i < n; i++ {
+			script = append(script, httpR(200, strconv.Itoa(e-1-i%2), lat))
+		}
+		script = append(script, matching(r, e, 1))
+		return script, matching(r, e, 1)
 	case "stall":
 		k := r.Intn(4)
 		for i := 0; i < k; i++ {
@@ -257,7 +268,7 @@ func genScript(r *vh.Rng, e, timeout int, class string) ([]Resp, Resp) {
 }
 
 func genWait(r *vh.Rng, id int) Case {
-	classes := []string{"early", "early", "early", "never", "never", "late", "inflight", "stall"}
+	classes := []string{"early", "early", "early", "never", "never", "late", "inflight", "stall", "slowlate"}
 	class := classes[id%len(classes)]
 	e := vh.Pick(r, []int{1, 2, 7, 10, 42, 100, 1000, 99999, 0, -3})
 	if class == "inflight" && e < 3 {
